@@ -725,7 +725,7 @@ var invKinds = []string{
 	"fee+", "expired", "vub-far", "vub-max", "blocked", "bad-script", "sysfee-big", "on-chain", "stub-common", "stub-disjoint", "stub-old", "stub-2nd", "stub-3rd", "stub-multi", "stub-multi", "stub-multi",
 	"bad-sig", "missing-sig", "wrong-key", "empty-verif", "swapped-sigs", "nvb-future", "conflicts-dup", "conflicts-onchain",
 	"hp-no-committee", "reserved", "oracle", "notary", "no-funds", "dup-signers", "below-need", "pool-dup", "two", "noncanon", "noncanon-vm", "stale", "stale", "stale",
-	"contract", "contract", "contract-fee-1", "contract-false",
+	"contract", "contract", "contract-fee-1", "contract-false", "stale-contract", "stale-contract", "stale-contract",
 	"at-need", "oversized", "max-size", "dup-attr", "too-many", "version", "empty-script",
 }
 
@@ -805,7 +805,7 @@ func runAdmit(o *hx.Out, k int, r *prng.R, inv string) {
 		} else {
 			signers = append([]*acct{s.E}, signers...)
 		}
-	case "contract", "contract-fee-1":
+	case "contract", "contract-fee-1", "stale-contract":
 		signers = append(signers, s.V)
 		if r.Bool() && len(signers) > 2 {
 			signers[1], signers[len(signers)-1] = signers[len(signers)-1], signers[1]
@@ -882,8 +882,21 @@ func runAdmit(o *hx.Out, k int, r *prng.R, inv string) {
 			expect = "reject"
 		}
 		switch what {
-		case "none", "pool-dup", "noncanon", "noncanon-vm", "stale":
+		case "none", "pool-dup", "noncanon", "noncanon-vm", "stale", "stale-contract":
 			expect = "ok"
+			if what == "stale-contract" {
+				// a contract-based witness and at least one attribute that carries a fee; little or no slack in the fee
+				delta = []int64{0, 0, int64(r.Range(1, 50))}[r.Intn(3)]
+				if !tx.HasAttribute(transaction.NotValidBeforeT) && !tx.HasAttribute(transaction.ConflictsT) && !tx.HasAttribute(transaction.HighPriority) {
+					if r.Bool() {
+						tx.Attributes = append(tx.Attributes, transaction.Attribute{Type: transaction.NotValidBeforeT, Value: &transaction.NotValidBefore{Height: uint32(r.Range(0, int(height)))}})
+					} else {
+						var h util.Uint256
+						copy(h[:], r.Bytes(32))
+						tx.Attributes = append(tx.Attributes, transaction.Attribute{Type: transaction.ConflictsT, Value: &transaction.Conflicts{Hash: h}})
+					}
+				}
+			}
 			if what == "stale" {
 				delta = []int64{0, 0, 1, int64(r.Range(0, 2000)), int64(r.Range(0, 3_000_000))}[r.Intn(5)]
 			}
@@ -1320,7 +1333,7 @@ func runAdmit(o *hx.Out, k int, r *prng.R, inv string) {
 			}
 		}
 	}
-	if decoded != nil && verdict == "ok" && w.bc.GetMemPool().ContainsKey(decoded.Hash()) && (inv == "stale" || inv == "noncanon-vm" || r.Chance(1, 4)) {
+	if decoded != nil && verdict == "ok" && w.bc.GetMemPool().ContainsKey(decoded.Hash()) && (inv == "stale" || inv == "stale-contract" || inv == "noncanon-vm" || r.Chance(1, 4)) {
 		postState(o, k, r, c, decoded, len(raw), rec, onChain, inv, signers, "")
 	}
 	o.Seen(fmt.Sprintf("admit/%s/%s/%d/%d/%d/%s", inv, second, len(tx.Signers), len(tx.Attributes), len(raw), verdict))
@@ -1393,6 +1406,8 @@ func postState(o *hx.Out, k int, r *prng.R, c *cand, decoded *transaction.Transa
 	mv := moves[r.Intn(len(moves))]
 	if forceMove != "" {
 		mv = forceMove
+	} else if inv == "stale-contract" {
+		mv = "attrfee-up"
 	} else if inv == "stale" && len(signers) > 1 && r.Chance(1, 3) {
 		mv = "conflict-onchain"
 	}
@@ -1401,6 +1416,7 @@ func postState(o *hx.Out, k int, r *prng.R, c *cand, decoded *transaction.Transa
 	}
 	var lastBlk []*transaction.Transaction // the transactions of the last block added
 	conflictBySigner := false
+	relpSeen, relpVal := false, false
 	setPol := func(method string, args ...any) {
 		lastBlk = w.addBlock(w.policyTx(method, args...)).Transactions
 	}
@@ -1448,14 +1464,27 @@ func postState(o *hx.Out, k int, r *prng.R, c *cand, decoded *transaction.Transa
 		}
 		setPol("setMaxValidUntilBlockIncrement", v)
 	case "attrfee-up":
+		// the fee of an attribute the transaction CARRIES goes up (every attribute type Policy prices and these chains use)
+		var carried []transaction.AttrType
+		for _, a := range tx.Attributes {
+			if a.Type == transaction.HighPriority || a.Type == transaction.NotValidBeforeT || a.Type == transaction.ConflictsT {
+				carried = append(carried, a.Type)
+			}
+		}
 		t := transaction.ConflictsT
-		if len(tx.Attributes) > 0 {
-			t = tx.Attributes[r.Intn(len(tx.Attributes))].Type
+		if len(carried) > 0 {
+			t = carried[r.Intn(len(carried))]
+			o.Count(fmt.Sprintf("stale:attrfee-up:carried=%d", t))
+		} else {
+			o.Count("stale:attrfee-up:not-carried")
 		}
-		if t >= transaction.ReservedLowerBound || t == transaction.OracleResponseT || t == transaction.NotaryAssistedT {
-			t = transaction.ConflictsT
+		slack := max(tx.NetworkFee-c.calc, 0)
+		up := []int64{1, 1, int64(r.Range(1, 100000))}[r.Intn(3)]
+		if inv == "stale-contract" {
+			// around the point where the fee stops covering size + attribute fees
+			up = []int64{1, max(slack, 1), slack + 1, slack + 1 + int64(r.Range(0, 1000))}[r.Intn(4)]
 		}
-		v := s.attrFeeOf(t) + []int64{1, 1, int64(r.Range(1, 100000))}[r.Intn(3)]
+		v := min(s.attrFeeOf(t)+up, 10_0000_0000)
 		s.pol.attrFee[t] = v
 		setPol("setAttributeFee", int64(t), v)
 	case "block-signer":
@@ -1561,6 +1590,7 @@ func postState(o *hx.Out, k int, r *prng.R, c *cand, decoded *transaction.Transa
 			relp := w.bc.IsTxStillRelevant(decoded, bp, false)
 			o.Line(sb.String()+strings.TrimPrefix(line, "admit"), fmt.Sprintf("%d", b2i(relp)))
 			o.Count(fmt.Sprintf("stale:relevantp=%v", relp))
+			relpSeen, relpVal = true, relp
 		}
 	}
 	inPool := w.bc.GetMemPool().ContainsKey(decoded.Hash())
@@ -1578,6 +1608,10 @@ func postState(o *hx.Out, k int, r *prng.R, c *cand, decoded *transaction.Transa
 			key = "calc-vs-vm-noncanonical-script"
 		}
 		o.Fail(key, k, "%s after %s: IsTxStillRelevant keeps the transaction, VerifyTx says %s (signers %s, fee %d, calc %d)", inv, mv, v2, acctNames(signers), tx.NetworkFee, c.calc)
+	}
+	if relpSeen && relpVal && chainPart && !(containsAcct(signers, s.NC) && v2 == "err:witness") {
+		// the statement on the form of the filter RemoveStale really runs
+		o.Fail("relevant-but-inadmissible", k, "%s after %s: IsTxStillRelevant (with the block's pool) keeps the transaction, VerifyTx says %s (signers %s, fee %d, calc %d)", inv, mv, v2, acctNames(signers), tx.NetworkFee, c.calc)
 	}
 	if inPool && !rel && rec.kind != "S" {
 		// RemoveStale runs the filter with the block's scratch pool instead of the DAO; without an on-chain conflict both agree
